@@ -1721,6 +1721,13 @@ class SequenceOfAndSetOfBase(base.ConstructedAsn1Type):
             yield self.getComponentByPosition(idx)
 
     def _cloneComponentValues(self, myClone, cloneValueFlag):
+        if self._componentValues is noValue:
+            # schema object: nothing to copy
+            return
+
+        # a value (even an empty one) clones into a value
+        myClone.clear()
+
         for idx, componentValue in self._componentValues.items():
             if componentValue is not noValue:
                 if isinstance(componentValue, base.ConstructedAsn1Type):
@@ -2303,6 +2310,10 @@ class SequenceAndSetBase(base.ConstructedAsn1Type):
     def _cloneComponentValues(self, myClone, cloneValueFlag):
         if self._componentValues is noValue:
             return
+
+        if not self._componentTypeLen:
+            # a value (even an empty one) clones into a value
+            myClone.clear()
 
         for idx, componentValue in enumerate(self._componentValues):
             if componentValue is not noValue:
